@@ -16,7 +16,7 @@ from ..loader import AnalysisError, Tree, unparse, walk_function
 from ..poly import RF, D, equal, sqrt, sym
 from ..report import Check
 from ..terms import TermEval
-from .c04 import check_prov
+from .c04 import check_frame, check_prov
 
 PID = "C07"
 ADAPTER = "ampform.kinematics::HelicityAdapter.create_expressions"
@@ -143,15 +143,119 @@ def check_mass_naming(ctx: Check, tree: Tree) -> None:
     ctx.verdict(ok, "R-TERM", f"{da.qual}::definition", tree.loc(da.node), "determine_attached_final_state: [id] for a final state, else sorted final-state ids below its ending node", None if ok else rets)
 
 
+def check_pool(ctx: Check, tree: Tree) -> None:
+    """R-POOL: inside one activation of the recursion every momentum is read from the pool
+    that was handed in (the rest frame of the node being processed).  The boosted pool of a
+    decaying child is a new object that only the recursive call for that child receives;
+    rebinding or writing the handed-in pool inside the loop over the children would make the
+    second decaying child (two-resonance topologies, e.g. (01)(23)) work in the first
+    child's helicity frame."""
+    from ..prov import _rd_for
+
+    fn = tree.func(f"{ANG}::compute_helicity_angles.__recursive_helicity_angles")
+    rd = _rd_for(fn, {})
+    if not fn.params:
+        raise AnalysisError(f"{fn.qual}: no momentum-pool parameter")
+    pool = fn.params[0]
+    pdefs = [d for d in rd.defs if d.kind == "param" and d.name == pool]
+    if len(pdefs) != 1:
+        raise AnalysisError(f"{fn.qual}: parameter definition of `{pool}` not found")
+    pdef = pdefs[0]
+
+    def is_alias(d, depth=0) -> bool:
+        if d is pdef:
+            return True
+        if depth > 4 or d.kind != "assign" or not isinstance(d.value, ast.Name):
+            return False
+        return all(is_alias(x, depth + 1) for x in rd.reaching(d.value)) and bool(rd.reaching(d.value))
+
+    reads = bad = 0
+    for n in walk_function(fn.node):
+        if not (isinstance(n, ast.Name) and isinstance(n.ctx, ast.Load)):
+            continue
+        reach = rd.reaching(n)
+        if not any(is_alias(d) for d in reach):
+            continue
+        reads += 1
+        foreign = [d for d in reach if not is_alias(d)]
+        if foreign:
+            bad += 1
+            d = foreign[0]
+            what = unparse(d.node)[:70] if isinstance(d.node, ast.AST) else d.kind
+            ctx.violation("R-POOL", f"{fn.qual}::pool-read-sees::{d.kind}", tree.loc(n),
+                          f"`{n.id}` read here may be the handed-in momentum pool or the result of `{what}` (line {getattr(d.node, 'lineno', '?')})",
+                          "the pool of the node being processed is rebound / written inside the loop over its children: the next decaying child is evaluated in its sibling's helicity frame")
+    if reads < 2:
+        raise AnalysisError(f"{fn.qual}: only {reads} reads of the momentum pool found (3 confirmed)")
+    if not bad:
+        ctx.ok("R-POOL", tree.loc(fn.node), f"all {reads} reads of the momentum pool `{pool}` in one activation see only the handed-in pool (never rebound or written)")
+
+
+def check_dalitz(ctx: Check, tree: Tree) -> None:
+    """R-TERM: formulate_scattering_angle(i, j) is the polar helicity angle of particle i in the
+    (ij) rest frame, written in Dalitz variables.  Reference (geometry, not the code): in the
+    (ij) frame with s_k=(p_i+p_j)^2: E_i=(s_k+m_i^2-m_j^2)/(2 sqrt s_k), E_k=(M^2-s_k-m_k^2)/(2 sqrt s_k),
+    |p_i|=sqrt(Kallen(s_k,m_i^2,m_j^2))/(2 sqrt s_k), |p_k|=sqrt(Kallen(M^2,m_k^2,s_k))/(2 sqrt s_k), and
+    s_j=(p_i+p_k)^2=m_i^2+m_k^2+2E_iE_k+2|p_i||p_k|cos(theta) because the helicity axis is -p_k."""
+    fn = tree.func(f"{ANG}::formulate_scattering_angle")
+    D.reset()
+    te = TermEval(tree)
+    two = RF.const(2)
+
+    def comp(i):
+        return "".join(str(x) for x in sorted({1, 2, 3} - {i}))
+
+    def kallen(x, y, z):
+        return x**2 + y**2 + z**2 - two * x * y - two * y * z - two * z * x
+
+    for i, j in [(1, 2), (2, 3), (3, 1), (1, 3), (2, 1), (3, 2)]:
+        key = f"{fn.qual}::({i},{j})"
+        try:
+            res = te.eval_function(fn, [RF.const(i), RF.const(j)])
+        except AnalysisError as exc:
+            if type(exc).__name__ == "RaisedError":
+                ctx.violation("R-TERM", key + "::raises", tree.loc(fn.node), f"formulate_scattering_angle({i}, {j}) raises", str(exc)[:200])
+                continue
+            raise
+        items = getattr(res, "items", None)
+        if not items or len(items) != 2:
+            raise AnalysisError(f"{fn.qual}: does not return (symbol, expression)")
+        s, th = items
+        atom = te.single_atom(th) if isinstance(th, RF) else None
+        info = te.apps.get(atom) if atom is not None else None
+        if info is None or info.cls != "acos":
+            ctx.violation("R-TERM", key + "::acos", tree.loc(fn.node), f"formulate_scattering_angle({i}, {j}) is not acos(...)", repr(th)[:120])
+            continue
+        got = te.unfold(info.args[0])
+        k = ({1, 2, 3} - {i, j}).pop()
+        m0, mi, mj, mk = sym("m_0"), sym(f"m_{i}"), sym(f"m_{j}"), sym(f"m_{k}")
+        sj, sk = sym(f"m_{comp(j)}") ** 2, sym(f"m_{comp(k)}") ** 2
+        e_i = sk + mi**2 - mj**2  # 2 sqrt(s_k) E_i
+        e_k = m0**2 - sk - mk**2  # 2 sqrt(s_k) E_k
+        want = (two * sk * (sj - mi**2 - mk**2) - e_i * e_k) / (sqrt(kallen(m0**2, mk**2, sk)) * sqrt(kallen(sk, mi**2, mj**2)))
+        ok = equal(got, want) and isinstance(s, RF) and equal(s, sym(f"theta_{i}{j}"))
+        ctx.verdict(ok, "R-TERM", key, tree.loc(fn.node),
+                    f"formulate_scattering_angle({i}, {j}) == acos of the (ij)-frame geometry with spectator {k}: [2 s_k (s_j - m_i^2 - m_k^2) - (s_k + m_i^2 - m_j^2)(M^2 - s_k - m_k^2)] / [sqrt Kallen(M^2, m_k^2, s_k) sqrt Kallen(s_k, m_i^2, m_j^2)]",
+                    None if ok else {"got": repr(got)[:300], "symbol": repr(s)})
+
+
 def run(ctx: Check, tree: Tree) -> None:
     ctx.decided += [
         "R-PROV over every producer merged by HelicityAdapter.create_expressions: key identity reaches the value (names are a function of final-state ids only, so equal names then carry equal quantities across topologies)",
         "R-TERM: InvariantMass = ComplexSqrt(E^2 - |p|^2), Phi = atan2(p_y, p_x), Theta = acos(p_z/|p|), component slices 0,1,2,3,1:, norms; mass symbol naming and the mass store",
     ]
-    ctx.not_decided += ["agreement with an independent boost-and-rotate implementation (numerical)", "agreement with the Dalitz closed form formulate_scattering_angle (see C19 for its own geometry)"]
+    ctx.decided += [
+        "R-FRAME: the helicity frame of a decaying child is BoostZ(|P|/E) RotationY(-Theta(P)) RotationZ(-Phi(P)) of the child's summed momentum P, applied to the pooled momenta; the recursion descends with that boosted pool",
+        "R-POOL: within one activation all momenta are read from the handed-in pool; it is never rebound or written (siblings do not see each other's frames)",
+        "R-TERM (Dalitz): formulate_scattering_angle(i, j) equals acos of the (ij)-rest-frame geometry in Dalitz variables for all six ordered pairs, spectator = the third particle",
+    ]
+    ctx.not_decided += ["agreement with an independent boost-and-rotate implementation on events (numerical); the matrices BoostZMatrix/RotationY/Z themselves are decided under C08"]
     ctx.assumptions += ["qrules Topology.get_originating_final_state_edge_ids returns the final-state edges below a node"]
     producers = producers_of_adapter(ctx, tree)
     ctx.section(check_prov, ctx, tree, producers, min_stores=5)
     ctx.section(check_slices, ctx, tree)
     ctx.section(check_definitions, ctx, tree)
     ctx.section(check_mass_naming, ctx, tree)
+    ctx.section(check_frame, ctx, tree)
+    ctx.section(check_pool, ctx, tree)
+    ctx.section(check_dalitz, ctx, tree)
